@@ -90,9 +90,19 @@ Proof. unfold P52. change 4503599627370496 with (Zpower radix2 52). rewrite IZR_
 (* ------------------------------------------------------------------------------------------ *)
 (** * dim_dom -> axis_ok *)
 
-Theorem dim_dom_axis_ok d sh : conversions_meet_spec -> dim_dom d sh = true -> axis_ok d sh.
+(** the facts, with the conversion part under a guard [G] so that the same proof also yields the purely
+    arithmetical part (G := False) without any premise about the conversions *)
+Definition axis_facts (G : Prop) (d : dimd) (sh : Z) : Prop :=
+  1 <= sh <= alen d /\ alen d <= AXIS_MAX + 1 /\
+  (forall i, 0 <= i < alen d -> finite (coord d i)) /\
+  (forall i j, 0 <= i <= j -> j < alen d -> (B2R (coord d i) <= B2R (coord d j))%R) /\
+  (forall i j, 0 <= i < j -> j <= sh -> j < alen d -> (B2R (coord d i) < B2R (coord d j))%R) /\
+  (G -> forall p m, finite p -> conv_dom d p ->
+        exists r, indexOf_scalar d p m = Ok r /\ rule_spec (coord d) (Some (alen d)) m p r).
+
+Lemma dim_dom_axis_facts (G : Prop) d sh : (G -> conversions_meet_spec) -> dim_dom d sh = true -> axis_facts G d sh.
 Proof.
-  intros (HSet & HFrame & HRange) H. unfold dim_dom in H.
+  intros HC H. unfold dim_dom in H.
   repeat (apply andb_true_iff in H; destruct H as [H ?]).
   apply Z.leb_le in H. rename H into Hsh1. rename H1 into Hsh52. rename H2 into Hsha. rename H0 into Hd.
   apply Z.leb_le in Hsha, Hsh52.
@@ -113,7 +123,7 @@ Proof.
         exact Hoff. }
     assert (Fc : forall i, 0 <= i < AXIS_MAX + 1 -> finite (x_sampled dt o i)).
     { intros i Hi. apply Hfin. unfold MAXI, AXIS_MAX in *. lia. }
-    constructor; cbn [alen coord]; fold o.
+    unfold axis_facts; cbn [alen coord]; fold o; (split; [|split; [|split; [|split; [|split]]]]).
     + cbn [alen] in Hsha. lia.
     + lia.
     + exact Fc.
@@ -129,7 +139,7 @@ Proof.
       pose proof (ascending_strict cs Hasc Fk (Z.to_nat i) (Z.to_nat j) ltac:(lia) ltac:(rewrite L; lia)) as St.
       rewrite !Nth in St by lia. replace (Z.of_nat (Z.to_nat i)) with i in St by lia.
       replace (Z.of_nat (Z.to_nat j)) with j in St by lia. exact St.
-    + intros p m Fp _. cbn [indexOf_scalar]. fold o.
+    + intros _ p m Fp _. cbn [indexOf_scalar]. fold o.
       apply (sampled_index_spec p o dt m Fp Foff Fdt Pdt Hfin).
   - (* range *)
     repeat (apply andb_true_iff in Hd; destruct Hd as [Hd ?]).
@@ -142,37 +152,52 @@ Proof.
       - intros k Hk. apply (forallb_nth fis_finite ticks f64_nan Hfin). exact Hk.
       - lia.
       - unfold zlen in Hj. lia. }
-    constructor; cbn [alen coord].
+    unfold axis_facts; cbn [alen coord]; (split; [|split; [|split; [|split; [|split]]]]).
     + lia.
     + exact Hlen.
     + exact Ft.
     + intros i j Hij Hj. destruct (Z.eq_dec i j) as [->|Hne]; [lra|]. apply Rlt_le. apply St; lia.
     + intros i j Hij _ Hj. apply St; lia.
-    + intros p m Fp _. cbn [indexOf_scalar]. apply (HRange ticks p m Fp Ft St).
+    + intros HG p m Fp _. destruct (HC HG) as (HSet & HFrame & HRange). cbn [indexOf_scalar]. apply (HRange ticks p m Fp Ft St).
   - (* set *)
     apply andb_true_iff in Hd. destruct Hd as [Hn0 HnM]. apply Z.leb_le in Hn0, HnM.
     cbn [alen] in *.
     assert (Hal : (if n =? 0 then AXIS_MAX + 1 else n) <= AXIS_MAX + 1) by (destruct (n =? 0); lia).
-    constructor; cbn [alen coord].
+    unfold axis_facts; cbn [alen coord]; (split; [|split; [|split; [|split; [|split]]]]).
     + lia.
     + exact Hal.
     + intros i Hi. apply x_int_R. lia.
     + intros i j Hij Hj. destruct (x_int_R i ltac:(lia)) as [-> _]. destruct (x_int_R j ltac:(lia)) as [-> _]. apply IZR_le. lia.
     + intros i j Hij _ Hj. destruct (x_int_R i ltac:(lia)) as [-> _]. destruct (x_int_R j ltac:(lia)) as [-> _]. apply IZR_lt. lia.
-    + intros p m Fp Dp. cbn [indexOf_scalar conv_dom] in *.
+    + intros HG p m Fp Dp. destruct (HC HG) as (HSet & HFrame & HRange). cbn [indexOf_scalar conv_dom] in *.
       destruct (HSet p (labels_of n) m Fp Dp ltac:(rewrite zlen_labels_of by lia; lia)) as (r & E & S).
       exists r. split; [exact E|]. rewrite zlen_labels_of in S by lia. unfold n_count in S. destruct (n =? 0); exact S.
   - (* data frame *)
     apply andb_true_iff in Hd. destruct Hd as [Hn0 HnM]. apply Z.leb_le in Hn0, HnM.
     cbn [alen] in *.
     assert (Hal : (if n =? 0 then AXIS_MAX + 1 else n) <= AXIS_MAX + 1) by (destruct (n =? 0); lia).
-    constructor; cbn [alen coord].
+    unfold axis_facts; cbn [alen coord]; (split; [|split; [|split; [|split; [|split]]]]).
     + lia.
     + exact Hal.
     + intros i Hi. apply x_int_R. lia.
     + intros i j Hij Hj. destruct (x_int_R i ltac:(lia)) as [-> _]. destruct (x_int_R j ltac:(lia)) as [-> _]. apply IZR_le. lia.
     + intros i j Hij _ Hj. destruct (x_int_R i ltac:(lia)) as [-> _]. destruct (x_int_R j ltac:(lia)) as [-> _]. apply IZR_lt. lia.
-    + intros p m Fp Dp. cbn [indexOf_scalar conv_dom] in *.
+    + intros HG p m Fp Dp. destruct (HC HG) as (HSet & HFrame & HRange). cbn [indexOf_scalar conv_dom] in *.
       destruct (HFrame p n m Fp Dp ltac:(lia)) as (r & E & S).
       exists r. split; [exact E|]. unfold n_count in S. destruct (n =? 0); exact S.
+Qed.
+
+Theorem dim_dom_axis_ok d sh : conversions_meet_spec -> dim_dom d sh = true -> axis_ok d sh.
+Proof.
+  intros HC H. destruct (dim_dom_axis_facts True d sh (fun _ => HC) H) as (H1 & H2 & H3 & H4 & H5 & H6).
+  constructor; try assumption. exact (H6 I).
+Qed.
+
+(** the arithmetical part alone: finite, non-decreasing coordinates *)
+Lemma dim_dom_fin_mono d sh : dim_dom d sh = true ->
+  1 <= sh /\ (forall i, 0 <= i < alen d -> finite (coord d i)) /\
+  (forall i j, 0 <= i <= j -> j < alen d -> (B2R (coord d i) <= B2R (coord d j))%R).
+Proof.
+  intro H. destruct (dim_dom_axis_facts False d sh (fun f => match f with end) H) as (H1 & _ & H3 & H4 & _).
+  split; [lia|]. split; assumption.
 Qed.
